@@ -177,4 +177,7 @@ PROPERTY_META = {
         "against callee contracts, not bodies). Coefficient types other than Self (arrays) are not covered.",
    assumptions=["composition with C01 (mul) and C04 (fdp, to_posit) contracts is by the modular argument, not re-proved monolithically",
                 "Polynom<[P; k]> (array-valued coefficients) is not covered"]),
+ "C15": dict(not_applicable="contract-based deductive verification cannot decide the ULP half: the bound is against transcendental functions (no theory in "
+        "CBMC/Z3/Verus; a 2^32-entry reference table cannot be indexed symbolically) and the kernels are chains of 512-bit quire accumulations whose "
+        "error analysis is a research-grade proof per function; the domain-guard half alone is not the property. See DESIGN.md section 9."),
 }
